@@ -18,6 +18,7 @@ from engine import symex as sx
 from engine.runner import Spec
 
 PKG = "verif_c14_autopkg"
+LIB = "verif_c14_teamlib"
 LAYOUT = {"m1": ["A", "B"], "m2": ["C"], "m3": ["D"], "m4": ["B"], "m5": ["B"]}  # m4, m5 define more classes named B
 _DIR = {}
 
@@ -29,12 +30,10 @@ def ensure_pkg():
     pkg = os.path.join(d, PKG)
     os.mkdir(pkg)
     open(os.path.join(pkg, "__init__.py"), "w").close()
-    for m, classes in LAYOUT.items():
-        src = "import verif_c14_reg as R\n"
-        src += f"if R.flag('{m}.importfail'): raise RuntimeError('import {m}')\n"
-        for cn in classes:
-            tag = cn if m not in ("m4", "m5") else cn + m[1]  # registry tag: unique per class object
-            src += f'''
+    def class_src(cn, tag):
+        # B objects are container-like and empty (falsy): a legal mode object
+        falsy = "    def __len__(self): return 0\n" if cn == "B" else ""
+        return f'''
 class {cn}:
     if R.flag('{tag}.named'): MODE_NAME = R.name('{tag}')
     DISABLED = R.flag('{tag}.disabled')
@@ -45,7 +44,20 @@ class {cn}:
     def on_enable(self): R.LOG.append(('on_enable', '{tag}'))
     def on_iteration(self, t): R.LOG.append(('on_iteration', '{tag}', t))
     def on_disable(self): R.LOG.append(('on_disable', '{tag}'))
-'''
+{falsy}'''
+
+    for m, classes in LAYOUT.items():
+        src = "import verif_c14_reg as R\n"
+        src += f"if R.flag('{m}.importfail'): raise RuntimeError('import {m}')\n"
+        for cn in classes:
+            tag = cn if m not in ("m4", "m5") else cn + m[1]  # registry tag: unique per class object
+            if m == "m2":
+                # the mode class lives in a team library outside the package and is imported into the module
+                with open(os.path.join(d, LIB + ".py"), "w") as f:
+                    f.write("import verif_c14_reg as R\n" + class_src(cn, tag))
+                src += f"from {LIB} import {cn}\n"
+            else:
+                src += class_src(cn, tag)
         src += "class Helper:\n    pass\n"
         with open(os.path.join(pkg, m + ".py"), "w") as f:
             f.write(src)
@@ -138,7 +150,7 @@ class Env:
 
 
 def purge():
-    for k in [k for k in sys.modules if k == PKG or k.startswith(PKG + ".")]:
+    for k in [k for k in sys.modules if k == PKG or k.startswith(PKG + ".") or k == LIB]:
         del sys.modules[k]
     importlib.invalidate_caches()
 
@@ -359,7 +371,7 @@ class C14(Spec):
     stubs = ["wpilib.SendableChooser: returns the selected option, else the default option", "SmartDashboard.getString returns the stored string or the default",
              "DriverStation.isFMSAttached: symbolic, constant per run", "wpilib.Timer on a symbolic non-decreasing clock", "loop stubs (refreshData / notifier) for run()"]
     assumptions = ["one worker process owns its temporary package directory (module files are toggled per job)"]
-    outside = ["classes re-exported between modules", "non-.py modules / namespace packages", "periodic() before the first start()"]
+    outside = ["classes re-exported between modules of the package (a class imported from outside the package into one module is covered: C)", "non-.py modules / namespace packages", "periodic() before the first start()"]
 
     # each job toggles files in the per-process package directory: jobs must not interleave inside one process
     def jobs(self, tier):
